@@ -10,9 +10,14 @@ macro_rules! with_property {
         match $id {
             "C01" => Some($f::<$crate::props::c01::C01>($($arg),*)),
             "C02" => Some($f::<$crate::props::c02::C02>($($arg),*)),
+            "C03" => Some($f::<$crate::props::c03::C03>($($arg),*)),
+            "C04" => Some($f::<$crate::props::c04::C04>($($arg),*)),
+            "C10" => Some($f::<$crate::props::c10::C10>($($arg),*)),
+            "C13" => Some($f::<$crate::props::c13::C13>($($arg),*)),
+            "C20" => Some($f::<$crate::props::c20::C20>($($arg),*)),
             _ => None,
         }
     };
 }
 
-pub const ALL_IDS: &[&str] = &["C01", "C02"];
+pub const ALL_IDS: &[&str] = &["C01", "C02", "C03", "C04", "C10", "C13", "C20"];
